@@ -16,6 +16,9 @@ MCDurs == {TD(Zero, Zero, Zero, Zero, Zero, Zero), TD(Zero, Zero, Zero, Zero, Ze
            TD(One, Zero, Zero, Zero, Zero, Zero), TD(FromInt(-25), Zero, Zero, Zero, Zero, Zero),
            TD(Zero, Zero, Zero, Zero, Zero, P70), TD(Zero, Zero, Zero, Zero, Zero, Neg(P70)),
            TD(Zero, Zero, P52, Zero, Zero, Zero), TD(Zero, Zero, Zero, Zero, Zero, P60x3),
+           \* milliseconds, microseconds and nanoseconds all large at once (each below 2^52 ns, together above 2^53 ns, an odd total)
+           TD(Zero, Zero, Zero, [s |-> 1, l |-> <<0, 0, 40>>], [s |-> 1, l |-> <<0, 0, 0, 4>>], [s |-> 1, l |-> <<1, 0, 0, 4000>>]),
+           TD(Zero, Zero, Zero, [s |-> -1, l |-> <<0, 0, 40>>], [s |-> -1, l |-> <<0, 0, 0, 4>>], [s |-> -1, l |-> <<1, 0, 0, 4000>>]),
            TD(FromInt(2000000000), Zero, Zero, Zero, Zero, Zero), TD(Zero, FromInt(-7), FromInt(-8), FromInt(-9), FromInt(-10), FromInt(-11)),
            Dur10(Zero, Zero, Zero, One, Zero, Zero, Zero, Zero, Zero, Zero), Dur10(Zero, Zero, One, Zero, Zero, Zero, Zero, Zero, Zero, Zero),
            Dur10(Zero, One, Zero, Zero, One, Zero, Zero, Zero, Zero, Zero), Dur10(Neg(One), Zero, Zero, Zero, Zero, Zero, Zero, Zero, Zero, Zero)}
